@@ -136,6 +136,39 @@ def run_tomography(n, prog, vin, env, acc, order=None):
     acc.outcome("%dq:%s" % (n, "complex" if np.abs(rho_exp.imag).max() > 1e-6 else "real"))
 
 
+def run_reuse(n, prog, edit, vin, env, acc):
+    """process(); edit the base circuit in place; process() again on the SAME object: the second result must be
+    the state of the edited circuit; fidelity() queries must not change rho."""
+    case = {"scenario": "reuse", "n_qubits": n, "prog": prog, "edit": edit, "input": vin, "seed": env.seed}
+    base = tomo.build_base(n, prog)
+
+    def experiment(circuits):
+        return [tomo.outcome_frequencies(c, n, vin) for c in circuits]
+
+    acc.tick("executions", 2); acc.tick("transitions", 2)
+    st = StateTomography(n, base, experiment)
+    try:
+        rho1 = st.process().copy()
+        psi1, _ = tomo.qubit_state(base, n, vin)
+        f1 = st.fidelity(np.outer(psi1, psi1.conj()))
+        f1b = st.fidelity(np.outer(psi1, psi1.conj()))
+        if abs(f1 - 1) > 1e-6 or abs(f1b - f1) > 1e-9 or not np.allclose(st.rho, rho1, atol=1e-12):
+            acc.violation("fidelity_query_changes_result", case, {"first": float(f1), "second": float(f1b)})
+        for g, q in edit:
+            base.add(getattr(lw.qubit, g[0])(*g[1:]), 2 * q)
+        rho2 = st.process()
+    except Exception as e:  # noqa: BLE001
+        acc.violation("tomography_raises", case, {"error": repr(e)})
+        return
+    psi2, _ = tomo.qubit_state(base, n, vin)
+    want = np.outer(psi2, psi2.conj())
+    if np.abs(rho2 - want).max() > 1e-8:
+        acc.violation("second_process_call_ignores_edited_base_circuit", case,
+                      {"max_err": float(np.abs(rho2 - want).max()),
+                       "equals_first_result": bool(np.allclose(rho2, rho1, atol=1e-8))})
+    acc.state("reuse", n, np.round(want, 8))
+
+
 def run(tier, seed):
     env = Env(seed)
     progs = programs(env, tier)
@@ -154,8 +187,15 @@ def run(tier, seed):
         jobs.append((2, [(a1[0], 0), (a1[9], 1), (("CNOT",), 0), (a1[4], 0), (a1[10], 1)], (1, 0, 1, 0), order))
         jobs.append((2, [(a1[0], 0), (a1[9], 1), (("CZ_Heralded",), 0), (a1[7], 1)], (1, 0, 1, 0), order[::-1]))
 
+    reuse = [(1, [(a1[0], 0)], [(a1[4], 0)], (1, 0)), (1, [(a1[9], 0)], [(a1[1], 0), (a1[7], 0)], (0, 1)),
+             (2, [(a1[0], 0), (("CNOT",), 0)], [(a1[1], 1)], (1, 0, 1, 0)),
+             (2, [(a1[9], 1), (("CZ_Heralded",), 0)], [(a1[0], 0), (a1[4], 1)], (1, 0, 1, 0))]
+
     def shard_fn(js):
         acc = kernel.Acc()
+        if js and js[0] is jobs[0]:
+            for n, prog, edit, vin in reuse:
+                run_reuse(n, prog, edit, vin, env, acc)
         for n, prog, vin, order in js:
             run_tomography(n, prog, vin, env, acc, order)
         if js:
@@ -185,5 +225,9 @@ def replay(w, acc):
     from .c01 import _tup
     case = w["case"]
     prog = [(_tup(g), q) for g, q in case["prog"]]
+    if case.get("scenario") == "reuse":
+        run_reuse(case["n_qubits"], prog, [(_tup(g), q) for g, q in case["edit"]], tuple(case["input"]),
+                  Env(case.get("seed", 0)), acc)
+        return
     order = tuple(case["order"]) if case.get("order") is not None else None
     run_tomography(case["n_qubits"], prog, tuple(case["input"]), Env(case.get("seed", 0)), acc, order)
